@@ -393,7 +393,10 @@ def case_stream(rng, n_mut, n_sent, grammar):
             t = case['text']
             i = rng.randrange(len(t) + 1)
             yield dict(src=case['src'] + '+illegal', text=t[:i] + rng.choice(ILLEGAL) + t[i:])
-    for g in ["select #\nfrom t", "select a\nfrom t #", "select @aa @bb", "select 'it''s' 'x' from", "select 1 1",
+    for c in lex_after_multiline(rng, max(150, n_mut // 4)):
+        yield c
+    for g in ["select /* a\n b */ 1 #", "select 'a\nb' #", "select a IS\nNOT null #", "select /* a\n b */ 1\n#\nfrom t",
+              "select 'a\n\nb',\n c\n from t &", "# /* a\n b */", "select #\nfrom t", "select a\nfrom t #", "select @aa @bb", "select 'it''s' 'x' from", "select 1 1",
               "  select\n    a b c d\n  from t t t", "select a /* c\n c */ from from", "select 'a\nb' from from",
               "select a from t1 join", "from", "\n\n  from", "select\n\n\n1\n\n\n2", "select * from t where a not b c",
               "select a from t where", "create", "select a,\n  b,\n  c c c\nfrom t", "\tselect\t1\t1", "select 1 )",
@@ -401,6 +404,41 @@ def case_stream(rng, n_mut, n_sent, grammar):
               "create model m predict", "select a from t where x in (1, 2", "select case when 1 then 2",
               "select 1;\nselect 2", "select a from b.c d e", "CREATE MODEL IF", "show", "show tables from", "drop", "use a b"]:
         yield dict(src='fixed', text=g)
+
+
+MULTI = ["/* a\n b */", "/*\n\n*/", "'a\nb'", "'x\n\ny'", '"a\nb"', "IS\nNOT", "NOT\n  IN", "NOT\n\nLIKE", "is \n not",
+         "KNOWLEDGE\nBASE", "PRIMARY\nKEY", "NOT\nEXISTS", "@'a\nb'", "`a\nb`"]
+WORDS = ['select', 'a', ',', 'b', 'from', 't', 'where', 'x', '=', '1', 'and', 'y', '(', ')', 'c']
+
+
+def lex_after_multiline(rng, n):
+    """illegal characters placed after something that spans a line break (multi-line comment, string with a
+    newline, two-word keyword split over lines): on the line where the construct ends, on the next line, on later
+    lines, on the last line; plus controls with the character before the construct / on the first line"""
+    def words(k):
+        return ' '.join(rng.choice(WORDS) for _ in range(k))
+    for _ in range(n):
+        pre = [words(rng.randint(1, 4)) for _ in range(rng.randint(0, 2))]
+        head = words(rng.randint(0, 3))
+        cons = [rng.choice(MULTI) for _ in range(rng.randint(1, 2))]
+        where = rng.choice(['same', 'same', 'next', 'later', 'last', 'before', 'first'])
+        ill = rng.choice(ILLEGAL)
+        mid = (head + ' ' if head else '') + (' ' + words(rng.randint(0, 2)) + ' ').join(cons)
+        tail_same = words(rng.randint(0, 3))
+        after = [words(rng.randint(1, 4)) for _ in range(rng.randint(0, 3))]
+        if where == 'same':
+            mid = mid + ' ' + tail_same + ' ' + ill + ' ' + words(rng.randint(0, 2))
+        elif where == 'next':
+            after = [rng.choice(['', '  ', '\t']) + words(rng.randint(0, 2)) + ill + words(rng.randint(0, 2))] + after
+        elif where == 'later':
+            after = after + [''] * rng.randint(0, 2) + [words(rng.randint(0, 3)) + ' ' + ill] + [words(1)] * rng.randint(0, 2)
+        elif where == 'last':
+            after = after + [words(rng.randint(0, 3)) + ' ' + ill]
+        elif where == 'before':
+            mid = words(rng.randint(0, 2)) + ill + ' ' + mid
+        else:
+            pre = [words(rng.randint(0, 2)) + ill + words(rng.randint(0, 2))] + pre
+        yield dict(src='lexml:' + where, text='\n'.join(pre + [mid] + after))
 
 
 def layout_invariant(toks, sql):
